@@ -99,6 +99,12 @@ Lemma fold_left_map' {X Y Z'} (f : X -> Y -> X) (g : Z' -> Y) l a :
   fold_left f (map g l) a = fold_left (fun a x => f a (g x)) l a.
 Proof. revert a. induction l as [|x l IH]; intros a; cbn [map fold_left]; [reflexivity|apply IH]. Qed.
 
+Lemma zmax_nat a b : (if Z.of_nat b >? Z.of_nat a then Z.of_nat b else Z.of_nat a) = Z.of_nat (Nat.max a b).
+Proof. destruct (Z.gtb_spec (Z.of_nat b) (Z.of_nat a)); lia. Qed.
+
+Lemma zrange_trunc a b : zrange (Z.of_nat a) (Z.of_nat b) = zrange (Z.of_nat a) (Z.of_nat (a + (b - a))).
+Proof. unfold zrange. f_equal. lia. Qed.
+
 Section Refine.
 Variable u : usettings.
 Variables s1 s2 : list point.
@@ -310,12 +316,6 @@ Definition RowR (n : nat) (cst : st3) : Prop :=
   length dtw = (2 * LL)%nat /\ (i1 = 0 \/ i1 = 1) /\ i0 = 1 - i1 /\ rowis LL dtw i1 prev /\ length prev = LL /\
   ok = true /\ ps = ps' /\ sc = Z.of_nat sc' /\ ec = Z.of_nat ec' /\ skip = Z.of_nat skipp /\
   skipp = match n with O => O | S m => sk m end.
-
-Lemma zmax_nat a b : (if Z.of_nat b >? Z.of_nat a then Z.of_nat b else Z.of_nat a) = Z.of_nat (Nat.max a b).
-Proof. destruct (Z.gtb_spec (Z.of_nat b) (Z.of_nat a)); lia. Qed.
-
-Lemma zrange_trunc a b : zrange (Z.of_nat a) (Z.of_nat b) = zrange (Z.of_nat a) (Z.of_nat (a + (b - a))).
-Proof. unfold zrange. f_equal. lia. Qed.
 
 Lemma row_step n cst : (n < r)%nat -> RowR n cst ->
   RowR (S n) (k_loop3 k_loop4 (k_loop5 dok dfun) zp1b zp1e dl_window (zL * 2) zr zc ldiff_window zL B ms pen cst (Z.of_nat n)).
